@@ -244,3 +244,24 @@ impl<V> Drop for AsyncLruCacheEntryInner<V> {
         }
     }
 }
+
+#[cfg(qcow2_rs_verif)]
+impl<K: Clone + PartialEq + Eq + Hash + std::fmt::Debug + std::cmp::PartialOrd, V>
+    AsyncLruCache<K, V>
+{
+    /// verification hook: read-only snapshot of the committed (rmap) entries
+    pub(crate) fn verif_entries(&self) -> Vec<(K, AsyncLruCacheEntry<V>)> {
+        let map = self.rmap.read().unwrap();
+        map.iter().map(|(k, v)| (k.clone(), Arc::clone(v))).collect()
+    }
+
+    /// verification hook: number of entries parked in wmap
+    pub(crate) fn verif_wmap_len(&self) -> usize {
+        self.wmap.lock().unwrap().len()
+    }
+
+    /// verification hook: configured capacity
+    pub(crate) fn verif_limit(&self) -> usize {
+        self.limit
+    }
+}
